@@ -125,43 +125,55 @@ Proof.
     + apply IH; [exact ND' | intros H; apply NI; right; exact H].
 Qed.
 
+Lemma cv_count_pos_in kids nm : 0 < cv_count kids nm -> In nm (map cv_cname kids).
+Proof.
+  unfold cv_count, vlen. destruct nm as [|a nm]; [lia|]. intros H.
+  destruct (filter (fun k => cv_name_eqb (cv_cname k) (a :: nm)) kids) as [|k l] eqn:E; [simpl in H; lia|].
+  assert (IN : In k (filter (fun k => cv_name_eqb (cv_cname k) (a :: nm)) kids)) by (rewrite E; left; reflexivity).
+  apply filter_In in IN. destruct IN as [IN Q]. apply cv_name_eqb_spec in Q. rewrite <- Q. apply in_map. exact IN.
+Qed.
+
+Lemma cv_count_zero_inv kids nm : cv_count kids nm = 0 -> nm <> [] -> forall k, In k kids -> cv_cname k <> nm.
+Proof.
+  intros Z NE k IN EQ. assert (P : 1 <= cv_count kids (cv_cname k)) by (apply cv_count_pos; [exact IN | rewrite EQ; exact NE]).
+  rewrite EQ in P. lia.
+Qed.
+
+(* the candidate search ends: among n + 1 different candidates one is carried by none of the n children *)
+Lemma cv_find_suffix_total base kids : forall fuel c taken,
+  NoDup taken -> incl taken (map cv_cname kids) ->
+  (forall t, In t taken -> exists c'', c'' < c /\ t = cv_suffixed base c'') ->
+  (length kids < length taken + fuel)%nat ->
+  exists c', cv_find_suffix fuel kids base c = Ok c' /\ c <= c' /\ cv_count kids (cv_suffixed base c') = 0.
+Proof.
+  induction fuel as [|f IH]; intros c taken ND INC TK LEN.
+  - exfalso. pose proof (NoDup_incl_length ND INC) as L. rewrite map_length in L. lia.
+  - cbn [cv_find_suffix]. destruct (N.ltb_spec 0 (cv_count kids (cv_suffixed base c))) as [P | Z].
+    + destruct (IH (c + 1) (cv_suffixed base c :: taken)) as [c' [E [LE Z]]].
+      * constructor; [|exact ND]. intros IN. destruct (TK _ IN) as [c'' [LT EQ]].
+        apply cv_suffixed_inj in EQ. destruct EQ as [_ EQ]. lia.
+      * intros t [<- | IN]; [apply cv_count_pos_in; exact P | apply INC; exact IN].
+      * intros t [<- | IN]; [exists c; split; [lia | reflexivity]|].
+        destruct (TK _ IN) as [c'' [LT EQ]]. exists c''. split; [lia | exact EQ].
+      * simpl. lia.
+      * exists c'. split; [exact E|]. split; [lia | exact Z].
+    + exists c. split; [reflexivity|]. split; lia.
+Qed.
+
 Section Distinct.
   Variable orig : list cv_child.
-  (* H1: no shape child is unnamed.  H2: no child already carries a name "X_k" for the name X of a shape child *)
+  (* H1: no shape child is unnamed (unnamed shapes are never renamed: cv_rename_empty_refuted) *)
   Hypothesis H1 : forall k, In k orig -> cv_is_shape k = true -> cv_cname k <> [].
-  Hypothesis H2 : forall k k' c, In k orig -> cv_is_shape k = true -> In k' orig -> cv_cname k' <> cv_suffixed (cv_cname k) c.
-
-  (* a child of [done]: an original child, or a shape renamed to X_c with X an original shape name, c < dup *)
-  Definition cv_done_ok (dup : N) (k : cv_child) : Prop :=
-    In k orig \/ (cv_is_shape k = true /\ exists x c, In x orig /\ cv_is_shape x = true /\ c < dup /\ cv_cname k = cv_suffixed (cv_cname x) c).
-
-  Lemma cv_done_ok_mono d d' k : d <= d' -> cv_done_ok d k -> cv_done_ok d' k.
-  Proof.
-    intros L [H | [S [x [c [A [B [C D]]]]]]]; [left; exact H|]. right. split; [exact S|]. exists x, c. repeat split; auto. lia.
-  Qed.
-
-  (* the candidate X_c with c >= dup is carried by nobody *)
-  Lemma cv_candidate_fresh done todo dup k c :
-    (forall x, In x done -> cv_done_ok dup x) -> (forall x, In x todo -> In x orig) ->
-    In k orig -> cv_is_shape k = true -> dup <= c ->
-    forall x, In x (done ++ todo) -> cv_cname x <> cv_suffixed (cv_cname k) c.
-  Proof.
-    intros HD HT Ik Sk Lc x Hx. apply in_app_or in Hx. destruct Hx as [Hx | Hx].
-    - destruct (HD x Hx) as [O | [S [y [c' [A [B [C D]]]]]]].
-      + apply (H2 k x c Ik Sk O).
-      + rewrite D. intros E. apply cv_suffixed_inj in E. destruct E as [_ E]. lia.
-    - apply (H2 k x c Ik Sk (HT x Hx)).
-  Qed.
 
   Lemma cv_rename_go_distinct : forall todo done dup ren,
-    (forall x, In x done -> cv_done_ok dup x) -> (forall x, In x todo -> In x orig) ->
+    (forall x, In x todo -> In x orig) ->
     NoDup (cv_shape_names done) ->
     (dup = 0 -> cv_shape_names done = []) ->
     exists r ren', cv_rename_go done todo dup ren = Ok (r, ren')
       /\ NoDup (cv_shape_names r) /\ length r = (length done + length todo)%nat
       /\ map cv_is_shape r = map cv_is_shape (done ++ todo).
   Proof.
-    induction todo as [|k rest IH]; intros done dup ren HD HT ND HZ.
+    induction todo as [|k rest IH]; intros done dup ren HT ND HZ.
     - exists done, ren. simpl. rewrite app_nil_r. repeat split; auto.
     - cbn [cv_rename_go].
       assert (Ik : In k orig) by (apply HT; left; reflexivity).
@@ -170,9 +182,6 @@ Section Distinct.
       + destruct (N.eqb_spec dup 0) as [Z | NZ].
         * (* the first shape child is skipped *)
           destruct (IH (done ++ [k]) 1 ren) as [r [ren' [E [A [B C]]]]].
-          -- intros x Hx. apply in_app_or in Hx. destruct Hx as [Hx | [<- | []]].
-             ++ apply (cv_done_ok_mono dup); [lia | apply HD; exact Hx].
-             ++ left. exact Ik.
           -- exact HT'.
           -- rewrite cv_shape_names_app, (HZ Z). unfold cv_shape_names. simpl. rewrite Sk. simpl. constructor; [intros []|constructor].
           -- intros X. discriminate.
@@ -181,28 +190,24 @@ Section Distinct.
              ++ rewrite C, <- app_assoc. reflexivity.
         * set (all := done ++ k :: rest).
           destruct (N.ltb_spec 1 (cv_count all (cv_cname k))) as [DUP | NODUP].
-          -- (* duplicated: the first candidate is free, the loop stops at once *)
-             assert (FR : cv_count all (cv_suffixed (cv_cname k) dup) = 0).
-             { apply cv_count_zero. intros x Hx. apply (cv_candidate_fresh done (k :: rest) dup k dup HD HT Ik Sk ltac:(lia) x Hx). }
-             cbn [cv_find_suffix]. rewrite FR. cbn [N.ltb N.compare bind].
-             set (k' := cv_mkChild true (cv_suffixed (cv_cname k) dup)).
-             destruct (IH (done ++ [k']) (dup + 1) true) as [r [ren' [E [A [B C]]]]].
-             ++ intros x Hx. apply in_app_or in Hx. destruct Hx as [Hx | [<- | []]].
-                ** apply (cv_done_ok_mono dup); [lia | apply HD; exact Hx].
-                ** right. split; [reflexivity|]. exists k, dup. repeat split; auto. lia.
+          -- (* duplicated: the search returns a candidate nobody carries *)
+             destruct (cv_find_suffix_total (cv_cname k) all (S (length all)) dup [] (NoDup_nil _)
+                         ltac:(intros t []) ltac:(intros t []) ltac:(simpl; lia)) as [c [EF [LE FR]]].
+             rewrite EF. cbn [bind].
+             set (k' := cv_mkChild true (cv_suffixed (cv_cname k) c)).
+             destruct (IH (done ++ [k']) (c + 1) true) as [r [ren' [E [A [B C]]]]].
              ++ exact HT'.
              ++ rewrite cv_shape_names_app. unfold cv_shape_names at 2. simpl.
                 apply cv_NoDup_snoc; [exact ND|].
                 intros IN. unfold cv_shape_names in IN. apply in_map_iff in IN. destruct IN as [x [EQ Hx]].
                 apply filter_In in Hx. destruct Hx as [Hx _].
-                apply (cv_candidate_fresh done (k :: rest) dup k dup HD HT Ik Sk ltac:(lia) x); [apply in_or_app; left; exact Hx | exact EQ].
+                apply (cv_count_zero_inv all _ FR (cv_suffixed_nonempty _ _) x); [unfold all; apply in_or_app; left; exact Hx | exact EQ].
              ++ intros X. lia.
              ++ exists r, ren'. split; [exact E|]. split; [exact A|]. split.
                 ** rewrite B, app_length. simpl. lia.
                 ** rewrite C. unfold all. rewrite <- app_assoc. rewrite !map_app. cbn [map app cv_is_shape k']. rewrite Sk. reflexivity.
           -- (* not duplicated: nobody in [done] has this name *)
              destruct (IH (done ++ [k]) dup ren) as [r [ren' [E [A [B C]]]]].
-             ++ intros x Hx. apply in_app_or in Hx. destruct Hx as [Hx | [<- | []]]; [apply HD; exact Hx | left; exact Ik].
              ++ exact HT'.
              ++ rewrite cv_shape_names_app. unfold cv_shape_names at 2. simpl. rewrite Sk. simpl.
                 apply cv_NoDup_snoc; [exact ND|].
@@ -218,7 +223,6 @@ Section Distinct.
                 ** rewrite B, app_length. simpl. lia.
                 ** rewrite C, <- app_assoc. reflexivity.
       + destruct (IH (done ++ [k]) dup ren) as [r [ren' [E [A [B C]]]]].
-        * intros x Hx. apply in_app_or in Hx. destruct Hx as [Hx | [<- | []]]; [apply HD; exact Hx | left; exact Ik].
         * exact HT'.
         * rewrite cv_shape_names_app. unfold cv_shape_names at 2. simpl. rewrite Sk. simpl. rewrite app_nil_r. exact ND.
         * intros X. rewrite cv_shape_names_app. unfold cv_shape_names at 2. simpl. rewrite Sk. simpl. rewrite app_nil_r. apply HZ. exact X.
@@ -233,13 +237,26 @@ Section Distinct.
   Proof.
     unfold cv_rename_node.
     destruct (cv_rename_go_distinct orig [] 0 false) as [r [ren [E [A [B C]]]]].
-    - intros x [].
     - auto.
     - constructor.
     - reflexivity.
     - exists r, ren. auto.
   Qed.
 End Distinct.
+
+(* the loop terminates with a result for EVERY child list (no hypothesis) *)
+Lemma cv_rename_go_total : forall todo done dup ren, exists r ren', cv_rename_go done todo dup ren = Ok (r, ren').
+Proof.
+  induction todo as [|k rest IH]; intros done dup ren; cbn [cv_rename_go]; [eauto|].
+  destruct (cv_is_shape k); [|apply IH].
+  destruct (dup =? 0); [apply IH|].
+  destruct (1 <? cv_count (done ++ k :: rest) (cv_cname k)); [|apply IH].
+  destruct (cv_find_suffix_total (cv_cname k) (done ++ k :: rest) (S (length (done ++ k :: rest))) dup [] (NoDup_nil _)
+              ltac:(intros t []) ltac:(intros t []) ltac:(simpl; lia)) as [c [EF _]].
+  rewrite EF. cbn [bind]. apply IH.
+Qed.
+Theorem cv_rename_total kids : exists r ren, cv_rename_node kids = Ok (r, ren).
+Proof. apply cv_rename_go_total. Qed.
 
 (* ---------- frame, for EVERY child list (no hypothesis): whatever the loop returns has the same
    children in the same order; a child keeps its name or is a shape that got "_<number>" appended;
@@ -277,16 +294,10 @@ Definition cv_A : cv_name := [65].
 Definition cv_A_1 : cv_name := [65; 95; 49].
 Definition cv_sh (n : cv_name) := cv_mkChild true n.
 
-(* [A_1, A, A] -> [A_1, A_1, A]: the candidate "A_1" is accepted because the test is "> 1" *)
-Theorem cv_rename_distinct_refuted :
-  exists kids r, Forall (fun k => cv_is_shape k = true) kids
-    /\ cv_rename_node kids = Ok (r, true)
-    /\ map cv_cname r = [cv_A_1; cv_A_1; cv_A] /\ ~ NoDup (cv_shape_names r).
-Proof.
-  exists [cv_sh cv_A_1; cv_sh cv_A; cv_sh cv_A]. eexists.
-  split; [repeat constructor|]. split; [vm_compute; reflexivity|]. split; [reflexivity|].
-  intros ND. inversion ND as [|? ? NI _]. apply NI. left. reflexivity.
-Qed.
+(* the former counterexample [A_1, A, A] (which the "> 1" test turned into [A_1, A_1, A]) now becomes [A_1, A_2, A] *)
+Example cv_rename_former_witness :
+  cv_rename_node [cv_sh cv_A_1; cv_sh cv_A; cv_sh cv_A] = Ok ([cv_sh cv_A_1; cv_sh [65; 95; 50]; cv_sh cv_A], true).
+Proof. vm_compute. reflexivity. Qed.
 
 (* unnamed shapes are never renamed: countDupes answers 0 for the empty name *)
 Theorem cv_rename_empty_refuted :
